@@ -38,7 +38,10 @@ func genC11(t *rapid.T) c11Case {
 		c.Hot = o.Hot
 		c.Tables = []gen.TableSpec{gen.DrawTable(t, o)}
 	} else {
-		c.Tables = DrawStackTables(t, 5, rapid.IntRange(0, 2).Draw(t, "hash"), true, rapid.SampledFrom([]int{1, 2, 4}).Draw(t, "poolMax"))
+		// half of the stacks: small blocks and enough names that most tables have an object
+		// index - a table that can say "nothing here for this id" while an older one has a match
+		c.Tables = DrawStackTables(t, 5, rapid.IntRange(0, 2).Draw(t, "hash"), true, rapid.SampledFrom([]int{1, 2, 4}).Draw(t, "poolMax"),
+			StackOpt{Indexed: rapid.Bool().Draw(t, "indexedStack")})
 	}
 	hs := c.Tables[0].Cfg.HashSize()
 	n := rapid.IntRange(0, 4).Draw(t, "nq")
@@ -189,20 +192,31 @@ func propC11(c c11Case, o *Obs) error {
 		return err
 	}
 	// shadowed hit: an older table has a ref pointing at an id, a newer one deletes or re-points it
-	shadowed := false
+	shadowed, underIndexed := false, false
 	for _, oid := range ids {
 		live := map[string]bool{}
 		for _, r := range model.RefsFor(raw, oid) {
 			live[string(r.Name)] = true
 		}
-		for _, t := range bs.Models {
+		for ti, t := range bs.Models {
 			for _, r := range model.RefsFor(t.Refs, oid) {
 				if !live[string(r.Name)] {
 					shadowed = true
+					// is it shadowed by a table that has an object index and no ref at oid at all?
+					for tj := ti + 1; tj < len(bs.Models); tj++ {
+						if bs.HasObjIndex[tj] && len(model.RefsFor(bs.Models[tj].Refs, oid)) == 0 {
+							for _, r2 := range bs.Models[tj].Refs {
+								if r2.Name == r.Name {
+									underIndexed = true
+								}
+							}
+						}
+					}
 				}
 			}
 		}
 	}
+	o.ClassIf(underIndexed, "stack-hit-shadowed-by-indexed-table-without-the-id")
 	o.Class(fmt.Sprintf("stack-tables-%d", len(bs.Data)))
 	o.ClassIf(shadowed, "stack-shadowed-hit")
 	o.Nontrivial = shadowed && hits > 0
